@@ -192,3 +192,33 @@ add({"name": "afsp_down", "file": "dfs/afsp.cc", "anchor": r"inline char down\(c
 add({"name": "wildcard_char_to_ere", "file": "dfs/afsp.cc", "anchor": r"for \(auto w : full_wildcard\)",
      "sig": "static void wildcard_char_to_ere(char w, struct charvec *parts)",
      "rules": [(r"parts\.push_back\(", "charvec_push(parts, ", 19), (r"\bup\(", "afsp_up(", 2), (r"\bdown\(", "afsp_down(", 2)]})
+
+# ---- cmd_extract_files.cc / dfs_catalog.cc (C12): host file name construction ---------------------------
+add({"name": "byte_to_ascii7", "file": "dfs/stringutil.h", "anchor": r"inline char byte_to_ascii7\(DFS::byte b\)",
+     "sig": "static char byte_to_ascii7(byte b)", "rules": [(r"\bchar\(", "(char)(", 1)]})
+add(ce("name", r"std::string CatalogEntry::name\(\) const",
+       "static struct cstr CatalogEntry_name(const struct CatalogEntry *self)",
+       [(r"std::string result;", "struct cstr result; result.n = 0;", 1),
+        (r"result\.reserve\(7\);", "/* reserve dropped */", 1),
+        (r"for \(auto it = raw_name_\.cbegin\(\); it != raw_name_\.cbegin\(\) \+ 7; \+\+it\)", "for (const byte *it = raw_name_; it != raw_name_ + 7; ++it)", 1),
+        (r"DFS::stringutil::byte_to_ascii7\(", "byte_to_ascii7(", 1),
+        (r"result\.push_back\(ch\);", "cstr_push(&result, ch);", 1)],
+       file="dfs/dfs_catalog.cc"))
+add({"name": "extract_files_basename", "file": "dfs/cmd_extract_files.cc",
+     "anchor": r"const string output_origname\(string\(1, entry\.directory\(\)\) \+ \"\.\" \+ rtrim\(entry\.name\(\)\)\);",
+     "region_end": r"std::ofstream outfile\(output_body_file, std::ofstream::out\);",
+     "region_epilogue": "mon_create_file(&dest_dir, &output_basename);\nreturn true;\n",
+     "sig": "static bool extract_files_basename(const struct CatalogEntry *entry, char current_directory, struct cstr dest_dir)",
+     "rules": [(r"const string output_origname\(string\(1, entry\.directory\(\)\) \+ \"\.\" \+ rtrim\(entry\.name\(\)\)\);",
+                "const struct cstr output_origname = cstr_dir_dot_name(CatalogEntry_directory(entry), cstr_rtrim(CatalogEntry_name(entry)));", 1),
+               (r"string output_basename;", "struct cstr output_basename; output_basename.n = 0;", 1),
+               (r"entry\.directory\(\) == ctx\.current_directory", "CatalogEntry_directory(entry) == current_directory", 1),
+               (r"output_basename = rtrim\(entry\.name\(\)\);", "output_basename = cstr_rtrim(CatalogEntry_name(entry));", 1),
+               (r"output_basename = string\(1, entry\.directory\(\)\) \+ \"\.\" \+ rtrim\(entry\.name\(\)\);",
+                "output_basename = cstr_dir_dot_name(CatalogEntry_directory(entry), cstr_rtrim(CatalogEntry_name(entry)));", 1),
+               (r"output_basename\.find\('/'\) != string::npos", "cstr_has_char(&output_basename, '/')", 1),
+               (r'output_basename == "\."', 'cstr_is(&output_basename, ".")', 1),
+               (r'output_basename == "\.\."', 'cstr_is(&output_basename, "..")', 1),
+               (r'std::cerr << "refusing to extract " << output_origname\s*<< ": it has no usable name inside " << dest_dir << "\\n";', "g_diag++;  /* diagnostic text dropped */", 1),
+               (r"const string output_body_file = dest_dir \+ output_basename;", "/* output_body_file = dest_dir + output_basename: see mon_create_file */", 1)],
+     "dropped": ["diagnostic text"]})
